@@ -616,7 +616,7 @@ def _k4_memo(run, prog, cm):
     run.floor("memo obligations", n, 1)
 
 
-def _k4_cond_recompute(run, prog, cm):
+def _k4_cond_recompute(run, prog, cm, rule="K4", class_pred=None):
     """Conditional recomputation: `if <test on guard cells G>: <recompute cells
     Y from cells SRC, refresh G>` keeps the old Y on the other path.  Every
     other public entry point that writes a SRC cell must then also write a
@@ -624,6 +624,8 @@ def _k4_cond_recompute(run, prog, cm):
     from .pymodel import _Builder
     n_sites = 0
     for C in sorted(prog.classes.values(), key=lambda c: c.name):
+        if class_pred is not None and not class_pred(C):
+            continue
         for f in list(C.methods.values()):
             if f.kind != "method" or f.name == "__init__":
                 continue
@@ -673,14 +675,14 @@ def _k4_cond_recompute(run, prog, cm):
                                 continue
                             ok = bool(guard & set(wr))
                             inst = f"{D.name}:{f.qualname}:{a.qualname}"
-                            run.oblige("K4", "recompute:" + inst, ok, sample={
+                            run.oblige(rule, "recompute:" + inst, ok, sample={
                                 "where": f"{f.module.relpath}:{node.lineno}",
                                 "guard": sorted(G), "memo": sorted(Yb - Yo)[:6],
                                 "derived_from": hit, "writer": a.qualname})
                             if not ok:
                                 w = wr[hit[0]]
                                 run.add(
-                                    "K4", f"recompute/{f.qualname}/"
+                                    rule, f"recompute/{f.qualname}/"
                                     f"{'+'.join(sorted(G))}/{w.func.qualname}",
                                     w.where,
                                     f"{f.qualname} recomputes {sorted(derived)[:4]} only "
@@ -690,7 +692,8 @@ def _k4_cond_recompute(run, prog, cm):
                                     f"rewrites (entry {a.qualname}) without touching the "
                                     f"guard: the stale value is reused",
                                     classes=[D.name])
-    run.count("K4", n_sites)
+    run.count(rule, n_sites)
+    return n_sites
 
 
 def _k4_groups(run, prog, cm):
